@@ -33,6 +33,12 @@ type filterSpec struct {
 type evSpec struct {
 	Category string `json:"category"` // "<missing>", "<int>" or a string value
 	Service  string `json:"service"`
+	// Token says what the event holds under the key "token" when it is put on the bus
+	// (that key is the one the pipeline itself writes): "" = no such key (an ordinary
+	// event), "<empty>" = the empty string, "<int>" / "<nil>" / "<bool>" / "<bytes>" =
+	// a non-string value, "<sensor>" = the sensor's own token, "<sensor-cut>" = a proper
+	// prefix of it, anything else = that string.
+	Token string `json:"token,omitempty"`
 }
 
 type routeCase struct {
@@ -43,6 +49,54 @@ type routeCase struct {
 
 var exprAlphabet = []string{"a", "b", "^a$", "a|b", ".", "^$", "ssh", "^s", "b$", "[ab]+", "^(a|ssh)$", "x"}
 var valueAlphabet = []string{"a", "b", "ab", "ba", "ssh", "", "x", "A", "<missing>", "<int>"}
+
+// tokenAlphabet: values an event may already hold under "token" when it reaches the bus
+// (relayed from an agent or peer, copied from a peer-controlled key/value map, or set by a
+// service through event.Custom). See evSpec.Token.
+var tokenAlphabet = []string{"<empty>", "<int>", "<nil>", "<bool>", "<bytes>", "<sensor>", "<sensor-cut>", "peer-token", "a", "00000000-0000-0000-0000-000000000000"}
+
+// genToken: most events are ordinary (no token key); about a third carry one.
+func genToken(t *rapid.T) string {
+	if rapid.IntRange(0, 2).Draw(t, "etokset") != 0 {
+		return ""
+	}
+	return rapid.SampledFrom(tokenAlphabet).Draw(t, "etok")
+}
+
+func genEvent(t *rapid.T) evSpec {
+	return evSpec{
+		Category: rapid.SampledFrom(valueAlphabet).Draw(t, "ecat"),
+		Service:  rapid.SampledFrom(valueAlphabet).Draw(t, "esvc"),
+		Token:    genToken(t),
+	}
+}
+
+// presetTokens counts the events that carry a "token" key of their own.
+func presetTokens(evs []evSpec) (n int64) {
+	for _, e := range evs {
+		if e.Token != "" {
+			n++
+		}
+	}
+	return n
+}
+
+// tokenOK is the statement's clause "delivered events carry the sensor token": the value
+// under "token" is the sensor token itself (a string), whatever the event held before.
+func tokenOK(ev lab.Ev, tok string) error {
+	v, ok := ev.M["token"]
+	if !ok {
+		return fmt.Errorf("carries no token, sensor token is %q", tok)
+	}
+	s, ok := v.(string)
+	if !ok {
+		return fmt.Errorf("carries a non-string token %T(%v), sensor token is %q", v, v, tok)
+	}
+	if s != tok {
+		return fmt.Errorf("carries token %q, sensor token is %q", s, tok)
+	}
+	return nil
+}
 
 func tomlList(xs []string) string {
 	q := make([]string, len(xs))
@@ -109,6 +163,27 @@ func mkEvent(i int, e evSpec) event.Event {
 		opts = append(opts, event.Custom("service", 7))
 	default:
 		opts = append(opts, event.Service(e.Service))
+	}
+	switch e.Token {
+	case "":
+	case "<empty>":
+		opts = append(opts, event.Custom("token", ""))
+	case "<int>":
+		opts = append(opts, event.Custom("token", 12345))
+	case "<nil>":
+		opts = append(opts, event.Custom("token", nil))
+	case "<bool>":
+		opts = append(opts, event.Custom("token", false))
+	case "<bytes>":
+		opts = append(opts, event.Custom("token", []byte("peer-token")))
+	case "<sensor>":
+		opts = append(opts, event.Token(token()))
+	case "<sensor-cut>":
+		if tok := token(); len(tok) > 0 {
+			opts = append(opts, event.Token(tok[:len(tok)-1]))
+		}
+	default:
+		opts = append(opts, event.Token(e.Token))
 	}
 	return event.New(opts...)
 }
@@ -220,8 +295,13 @@ func checkRoute(c routeCase) error {
 			}
 		}
 		for _, ev := range raw[ch] {
-			if ev.Str("token") != tok {
-				return fmt.Errorf("channel %s: delivered event %v carries token %q, sensor token is %q", ch, ev.M["c06.n"], ev.Str("token"), tok)
+			if err := tokenOK(ev, tok); err != nil {
+				n, _ := ev.M["c06.n"].(int)
+				was := "no token key"
+				if n >= 0 && n < len(c.Events) && c.Events[n].Token != "" {
+					was = "token=" + c.Events[n].Token
+				}
+				return fmt.Errorf("channel %s: delivered event %d (put on the bus with %s) %v", ch, n, was, err)
 			}
 			if ev.SerErr != "" {
 				return fmt.Errorf("delivered event does not serialise: %s", ev.SerErr)
@@ -278,7 +358,7 @@ func genCase(t *rapid.T) routeCase {
 	}
 	ne := rapid.IntRange(1, 20).Draw(t, "ne")
 	for i := 0; i < ne; i++ {
-		c.Events = append(c.Events, evSpec{rapid.SampledFrom(valueAlphabet).Draw(t, "ecat"), rapid.SampledFrom(valueAlphabet).Draw(t, "esvc")})
+		c.Events = append(c.Events, genEvent(t))
 	}
 	return c
 }
@@ -329,7 +409,7 @@ func TestRouting(t *testing.T) {
 		}
 		return
 	}
-	r.Rule("configurations of 1..3 capture channels and 0..4 filters (channel lists incl. unknown names, category/service lists absent or 1..3 expressions from a regex alphabet) x 1..20 events whose category/service are matching, non-matching, missing or non-string, through the real Run() wiring and bus; oracle = reference subscription model (multiplicity and order per channel, token on every delivered event); non-trivial = >=2 subscriptions and an event admitted by one and rejected by another; distinct by configuration+stream")
+	r.Rule("configurations of 1..3 capture channels and 0..4 filters (channel lists incl. unknown names, category/service lists absent or 1..3 expressions from a regex alphabet) x 1..20 events whose category/service are matching, non-matching, missing or non-string and of which about a third already hold a value under the pipeline-written key token when put on the bus (empty, non-string, another string, the sensor token or a prefix of it), through the real Run() wiring and bus; oracle = reference subscription model (multiplicity and order per channel; every delivered event holds the sensor token, as a string, under token - whatever it held before); non-trivial = >=2 subscriptions and an event admitted by one and rejected by another; distinct by configuration+stream")
 	start := time.Now()
 	r.Rapid(t, "TestRouting", r.Pick(8000, 60000), func(rt *rapid.T) {
 		c := genCase(rt)
@@ -338,6 +418,7 @@ func TestRouting(t *testing.T) {
 			fp = vlib.JSON(c)
 		}
 		r.Case(fmt.Sprintf("route/channels=%d/filters=%d", len(c.Channels), len(c.Filters)), fp, func() interface{} { return c })
+		r.Label("route/events-with-own-token", presetTokens(c.Events))
 		if err := checkRoute(c); err != nil {
 			if strings.HasPrefix(err.Error(), "infra:") {
 				rt.Fatalf("%v", err)
@@ -555,8 +636,12 @@ func judgeBurst(c concCase, ch string, b int, st *chanState, tail []lab.Ev, exp 
 		} else {
 			cnt[s][n-b*k]++
 		}
-		if ev.Str("token") != tok {
-			return "", nil, fmt.Errorf("channel %s: delivered event #%d of sender %d carries token %q, sensor token is %q", ch, n, s, ev.Str("token"), tok)
+		if err := tokenOK(ev, tok); err != nil {
+			was := "no token key"
+			if e := c.Senders[s][n%k]; e.Token != "" {
+				was = "token=" + e.Token
+			}
+			return "", nil, fmt.Errorf("channel %s: delivered event #%d of sender %d (put on the bus with %s) %v", ch, n, s, was, err)
 		}
 		if ev.SerErr != "" {
 			return "", nil, fmt.Errorf("delivered event does not serialise: %s", ev.SerErr)
@@ -736,7 +821,7 @@ func genConc(t *rapid.T) concCase {
 		ne := rapid.IntRange(1, 6).Draw(t, "ne")
 		var evs []evSpec
 		for i := 0; i < ne; i++ {
-			evs = append(evs, evSpec{rapid.SampledFrom(valueAlphabet).Draw(t, "ecat"), rapid.SampledFrom(valueAlphabet).Draw(t, "esvc")})
+			evs = append(evs, genEvent(t))
 		}
 		c.Senders = append(c.Senders, evs)
 		c.Pace = append(c.Pace, rapid.SampledFrom([]int{0, 1, 1, 2, 3, 5, 9, 17, 33}).Draw(t, "pace"))
@@ -783,7 +868,7 @@ func TestConcurrentSenders(t *testing.T) {
 		}
 		return
 	}
-	r.Rule("schedule dimension: configurations of 1..3 channels (lab capture or a light snapshot-only capture, both through the public registry) and 1..4 filters x 2..8 concurrent senders (each 1..6 events per burst over the value alphabet; pre-built back-to-back, or built inline with 0..32 units of work between sends; optionally yielding after each Send) x 20..400 bursts on one server through the real Run() wiring; all senders of a burst are released together; after every Send of the burst returned each channel must hold exactly the reference model's multiset for that burst, each sender's events in its own sending order, token on every event; a missing delivery is a violation only if it is still missing after 3 s in which nothing is sent; non-trivial = >=2 senders each with an event some channel must receive; distinct by configuration+streams+pacing")
+	r.Rule("schedule dimension: configurations of 1..3 channels (lab capture or a light snapshot-only capture, both through the public registry) and 1..4 filters x 2..8 concurrent senders (each 1..6 events per burst over the value alphabet, about a third already holding a token value of their own; pre-built back-to-back, or built inline with 0..32 units of work between sends; optionally yielding after each Send) x 20..400 bursts on one server through the real Run() wiring; all senders of a burst are released together; after every Send of the burst returned each channel must hold exactly the reference model's multiset for that burst, each sender's events in its own sending order, token on every event; a missing delivery is a violation only if it is still missing after 3 s in which nothing is sent; non-trivial = >=2 senders each with an event some channel must receive; distinct by configuration+streams+pacing")
 	r.Rapid(t, "TestConcurrentSenders", r.Pick(400, 4000), func(rt *rapid.T) {
 		c := genConc(rt)
 		fp := ""
@@ -792,6 +877,9 @@ func TestConcurrentSenders(t *testing.T) {
 		}
 		r.Case(fmt.Sprintf("concurrent/senders=%d", len(c.Senders)), fp, func() interface{} { return c })
 		r.Label("concurrent/bursts", int64(c.Bursts))
+		for _, evs := range c.Senders {
+			r.Label("concurrent/events-with-own-token", presetTokens(evs)*int64(c.Bursts))
+		}
 		if err := checkConc(c); err != nil {
 			if strings.HasPrefix(err.Error(), "infra:") {
 				rt.Fatalf("%v", err)
